@@ -118,6 +118,20 @@ func runC12(c *ctx) {
 	for _, p := range c12Ctx {
 		c.diffEval(p, doc, "context")
 	}
+	// assignments that are not direct statements of a block (inside a conditional, a constructor, an argument):
+	// they bind in the scope of the block that contains them, never in an enclosing one
+	c.rep.Exhaustive = append(c.rep.Exhaustive, "assignment in expression position x enclosing block shape x observer")
+	for _, a := range []string{"$x := 2", "$x := $x", "$y := 5"} {
+		for _, ctxt := range []string{"(true ? %s : 0)", "(false ? 0 : %s)", "[%s]", "{\"k\": %s}", "$count([%s])", "$string(%s)", "1 + (true ? %s : 0)", "[1, 2].(%s)", "$map([1], function($v){%s})", "(true ? (false ? 0 : %s))"} {
+			inner := fmt.Sprintf(ctxt, a)
+			for _, shape := range []string{"(%s)", "(%s; 0)", "(0; %s)", "(%s; $x)", "function(){%s}()", "function($x){(%s; $x)}(9)", "function($x){%s}(9)", "((%s))", "(%s; $y)"} {
+				blk := fmt.Sprintf(shape, inner)
+				for _, outer := range []string{"($x := 1; %s; $x)", "($z := 0; %s; $x)", "($x := \"o\"; $f := function(){$x}; %s; $f())", "($x := 1; [%s, $x])", "($z := 0; %s; $y)", "function($x){(%s; $x)}(7)"} {
+					c.diffEval(fmt.Sprintf(outer, blk), doc, "scoping/nested-assignment")
+				}
+			}
+		}
+	}
 	// signatures
 	n := c.scale(9000, 200000)
 	for i := 0; i < n && !c.tooMany(); i++ {
